@@ -1,2 +1,92 @@
-(* placeholder: theorems follow *)
-From Mos Require Import Base.Prelude.
+(* C09 — responses respect the transport size limit and truncate well-formedly.
+   Only statements; proofs in Codec/TruncProofs.v.  [pack_msg buflen compress size m] is Msg.Pack into a buffer of
+   buflen octets; size > 0 is the caller's limit (floor 512: [eff_size]).  [opt_len m] is the packed size of the OPT
+   record PopEDNS0 finds (0 when there is none); every response the router builds carries its own 11-octet OPT or
+   none, so the side condition [opt_len m + 12 <= eff_size size] always holds there. *)
+From Mos Require Import Base.Prelude Codec.Name Codec.Msg Codec.Spec Codec.NameProofs Codec.SafetyProofs
+  Codec.WfProofs Codec.RoundtripProofs Codec.TruncProofs.
+
+(* Packing a well-formed message (hence: any decoded message, C01_decode_wf) into a buffer of Msg.Len octets never
+   fails — with or without compression, with or without a size limit. *)
+Theorem C09_pack_total : forall (buflen : nat) (compress : bool) (size : nat) (m : msg),
+  wf_msg m -> msg_len m <= buflen -> exists out, pack_msg buflen compress size m = Ok out.
+Proof. exact pack_msg_total. Qed.
+Print Assumptions C09_pack_total.
+
+(* The size bound, compression on or off: the output never exceeds max(512, size). *)
+Theorem C09_size : forall (buflen : nat) (compress : bool) (size : nat) (m : msg) (out : list N),
+  wf_msg m -> 0 < size -> opt_len m + 12 <= eff_size size ->
+  pack_msg buflen compress size m = Ok out -> length out <= eff_size size.
+Proof. exact pack_msg_size_bound. Qed.
+Print Assumptions C09_size.
+
+Theorem C09_eff_size : forall size, eff_size size = Nat.max 512 size.
+Proof. exact eff_size_max. Qed.
+Print Assumptions C09_eff_size.
+
+(* Nothing is omitted and TC is not added when the uncompressed encoding already fits (compression on or off):
+   the header written carries the original flag word and the full section counts. *)
+Theorem C09_fits_untouched : forall (buflen : nat) (compress : bool) (size : nat) (m : msg) (out : list N),
+  wf_msg m -> 0 < size -> msg_len m <= eff_size size ->
+  pack_msg buflen compress size m = Ok out ->
+  exists body, out = hdr_bytes (h_id (m_hdr m)) (hdr_bits (m_hdr m)) (N.of_nat (length (m_qs m)))
+                       (N.of_nat (length (m_an m))) (N.of_nat (length (m_ns m))) (N.of_nat (length (m_ar m))) ++ body.
+Proof. exact pack_msg_fits. Qed.
+Print Assumptions C09_fits_untouched.
+
+(* Without compression the octets written are exactly the canonical encoding of the truncated message [trunc] ... *)
+Theorem C09_plain_exact : forall (size : nat) (m : msg), wf_msg m -> 0 < size ->
+  pack_msg (msg_len m) false size m = Ok (plain_bytes (trunc size m)).
+Proof. exact pack_msg_plain_trunc. Qed.
+Print Assumptions C09_plain_exact.
+
+(* ... which decodes cleanly (the section counts equal the records present), whatever follows it, ... *)
+Theorem C09_wellformed : forall (size : nat) (m : msg) (trailing : list N), wf_msg m ->
+  unpack_msg (plain_bytes (trunc size m) ++ trailing) = Ok (relen (trunc size m)) /\ wf_msg (trunc size m).
+Proof. intros size m post Hw. split; [now apply trunc_decodes|now apply trunc_wf]. Qed.
+Print Assumptions C09_wellformed.
+
+(* ... keeps questions, answers and authorities unmodified in their original relative order, retains the OPT record
+   (as the last additional), ... *)
+Theorem C09_order_kept : forall (size : nat) (m : msg),
+  sublist (m_qs (trunc size m)) (m_qs m) /\ sublist (m_an (trunc size m)) (m_an m) /\
+  sublist (m_ns (trunc size m)) (m_ns m) /\
+  exists kept, m_ar (trunc size m) = kept ++ opt_list m /\ sublist kept (snd (pop_opt (m_ar m))).
+Proof. exact trunc_sections. Qed.
+Print Assumptions C09_order_kept.
+
+(* ... sets TC iff something was omitted (or TC was set already) and changes no other header field, ... *)
+Theorem C09_tc_iff : forall (size : nat) (m : msg),
+  m_hdr (trunc size m) = set_tc (m_hdr m) (h_tc (m_hdr m) || omitted (trunc size m) m).
+Proof. exact trunc_header. Qed.
+Print Assumptions C09_tc_iff.
+
+(* ... and always retains a single question that fits next to the OPT record. *)
+Theorem C09_question_kept : forall (size : nat) (m : msg) (q : question),
+  m_qs m = [q] -> 12 + q_len q + opt_len m <= eff_size size -> m_qs (trunc size m) = [q].
+Proof. exact trunc_question. Qed.
+Print Assumptions C09_question_kept.
+
+(* The executable oracle that the correspondence check evaluates on the implementation's output holds of the
+   model's uncompressed output, for every message and limit. *)
+Theorem C09_oracle_plain : forall (size : nat) (m : msg), wf_msg m -> 0 < size -> opt_len m + 12 <= eff_size size ->
+  spec_packsize false size m (plain_bytes (trunc size m)) = true.
+Proof. exact spec_packsize_plain. Qed.
+Print Assumptions C09_oracle_plain.
+
+(* C09_compressed_wellformed_partial: with compression ON the size bound (C09_size), "nothing omitted when it fits"
+   (C09_fits_untouched) and totality (C09_pack_total) are proved above; that the compressed truncated output decodes
+   to the kept records is NOT proved (it needs the compression-table invariant of the compressed round trip, which
+   is itself refuted beyond 10 pointer hops: C02_deep_chain_refuted).  It is checked on every run by evaluating
+   [spec_packsize true] on the bytes the implementation and the model both produce. *)
+
+(* non-vacuity: 60 A records at limit 512 are truncated to 28 with TC set, 11-octet OPT retained *)
+Definition ex_rr (i : N) : rr := mkRR [1; 97]%N 1 1 60 4 (RA [10; 0; 0; i]%N).
+Definition ex_opt : rr := mkRR [] 41 1232 0 0 (RRaw []).
+Definition ex_msg : msg :=
+  mkMsg (mkHeader 7 true 0 false false true true false false 0) [mkQuestion [1; 97]%N 1 1]
+        (map (fun i => ex_rr (N.of_nat i)) (seq 0 60)) [] [ex_opt].
+Example C09_example :
+  length (m_an (trunc 512 ex_msg)) = 28 /\ h_tc (m_hdr (trunc 512 ex_msg)) = true /\
+  m_ar (trunc 512 ex_msg) = [ex_opt] /\ length (plain_bytes (trunc 512 ex_msg)) = 506 /\ msg_len ex_msg = 1050.
+Proof. vm_compute. repeat split. Qed.
